@@ -15,10 +15,10 @@ PROPS = {
         "pkgs": ["gbn"],
         "level": "exploration",
         "quick_budget": 50, "thorough_budget": 1500,
-        "rule": "Seeded simulated runs of a real client+server GoBackNConn pair (handshake included) with concurrent traffic in both directions; per run the tape draws N (1..254, biased to 1,2,3,20,64,253,254), chunking, static/adaptive timeouts, keepalive, per-direction drop/dup/delay rates, message counts and sizes, and every scheduling decision." + SIG_RULE,
+        "rule": "Seeded simulated runs of a real client+server GoBackNConn pair (handshake included) with concurrent traffic in both directions; per run the tape draws N (1..254, biased to 1,2,3,20,64,253,254), chunking, static/adaptive timeouts, keepalive, per-direction drop/dup/delay rates, message counts and sizes, and every scheduling decision. Applications vary per run: readers that lag behind by more than a window of packets, readers with a receive timeout (1 ms..1 s) that they retry after, writers with idle gaps." + SIG_RULE,
         "assumptions": ["transport keeps per-direction order (property precondition)", "harness oracle regenerates each expected message from (direction, index, size)"],
         "components": GBN_COMPONENTS,
-        "expected_probes": ["c01.complete", "c01.seq-wrapped"],
+        "expected_probes": ["c01.recv-timeout-retried", "c01.complete", "c01.seq-wrapped"],
         "level_text": "Seeded search over schedules and fault sequences of the real Go-Back-N code in virtual time: every run is an exactly repeatable execution, thousands (quick) to >100k (thorough) of them with swarm-varied window sizes, timeouts, fault mixes and workloads; a violation is minimised and replayed in a fresh process. Evidence, not proof.",
         "level_note": "Trusts the Go runtime, testing/synctest's virtual clock and the instrumenter's rewrite (channel ops, select, locks, spawns, sleeps are the scheduling points); the transport is a stub that keeps per-direction order as the property presupposes.",
     },
@@ -43,7 +43,7 @@ PROPS["C10"] = {
     "pkgs": ["gbn"],
     "level": "exploration",
     "quick_budget": 50, "thorough_budget": 1500,
-    "rule": "hs-random: real NewClientConn/NewServerConn inside application retry loops (as grpc provides), tape-chosen start order incl. a late server, random drop/dup/delay of every packet during a fault prefix of 1..20 virtual seconds, 0..5 stale packets of every type (SYN with same/other N, SYNACK, ACK, NACK, DATA, PING, FIN) pre-queued per direction, N from 1..254; hs-patterns: complete enumeration of drop/duplicate/delay-past-timeout on each of the first six handshake packets, all singles and all pairs, both start orders. Safety oracle at every successful constructor return (server window is one a delivered SYN proposed, representable, and equals the client's when data flows); progress oracle at a bound after the last fault." + SIG_RULE,
+    "rule": "hs-random: real NewClientConn/NewServerConn inside application retry loops (as grpc provides), tape-chosen start order incl. a late server, random drop/dup/delay of every packet during a fault prefix of 1..20 virtual seconds, 0..5 stale packets of every type (SYN with same/other N, SYNACK, ACK, NACK, DATA, PING, FIN) pre-queued per direction, N from 1..254; hs-patterns: complete enumeration of drop/duplicate/delay-past-timeout on each of the first six handshake packets, all singles and all pairs, both start orders. Safety oracle at every successful constructor return (server window is one a delivered SYN proposed, representable, and equals the client's when data flows); progress oracle at a bound after the last fault. The client's wire behaviour is monitored (a SYNACK only after an echo of its own window); hs-stray enumerates one stray packet of every type at six instants around the SYN / echo / SYNACK exchange." + SIG_RULE,
     "assumptions": ["progress bound = last fault + 120 x handshake timeout + 4 x (ping+pong) + 5 virtual minutes; the defects it is meant to catch are unbounded", "stale SYNs model an earlier connection of the same session and may carry another N"],
     "components": GBN_COMPONENTS,
     "expected_probes": ["c10.attempt-failed-with-error", "c10.reconnected"],
@@ -79,10 +79,10 @@ PROPS["C12"] = {
     "pkgs": ["gbn", "mailbox"],
     "level": "exploration",
     "quick_budget": 60, "thorough_budget": 1800,
-    "rule": "Per run the tape picks the phase in which Close lands (constructor context cancelled mid-handshake, idle, mid-burst, full window with a blocked Send, inside a resend / sync wait, only Recv blocked) and the virtual instant inside it, who closes (client, server, both at the same instant), 1-3 concurrent callers per endpoint plus a repeated Close, the transport state at that moment (healthy, total blackout, send callbacks stalled until their context is cancelled), N, timeouts and keepalive. Oracles: Close returns within FIN timeout + 2 s; blocked and later local calls fail; the peer is closed with all its calls failed within FIN timeout + 2 x latency + 2 s on a healthy transport (keepalive bound on a dead one); afterwards no task spawned by the connection code is alive (task registry with spawn sites) and no ticker created by it still ticks (drain, advance one virtual hour, look). mb-close: the same for the mailbox connections in the full stack over the stub relay (Close by client / server / both, 1-2 concurrent callers, idle or mid-transfer; bounded return; both applications released; after listener and dialer shutdown nothing of gbn/mailbox is left)." + SIG_RULE,
+    "rule": "Per run the tape picks the phase in which Close lands (constructor context cancelled mid-handshake, idle, mid-burst, full window with a blocked Send, inside a resend / sync wait, only Recv blocked) and the virtual instant inside it, who closes (client, server, both at the same instant), 1-3 concurrent callers per endpoint plus a repeated Close, the transport state at that moment (healthy, total blackout, send callbacks stalled until their context is cancelled), N, timeouts and keepalive. Oracles: Close returns within FIN timeout + 2 s; blocked and later local calls fail; the peer is closed with all its calls failed within FIN timeout + 2 x latency + 2 s on a healthy transport (keepalive bound on a dead one); afterwards no task spawned by the connection code is alive (task registry with spawn sites) and no ticker created by it still ticks (drain, advance one virtual hour, look). mb-close: the same for the mailbox connections in the full stack over the stub relay (Close by client / server / both, 1-2 concurrent callers, idle or mid-transfer; bounded return; both applications released; after listener and dialer shutdown nothing of gbn/mailbox is left). close-anytime also has an unread-backlog phase (more than a window of packets received that the application never reads) and, with the stalled transport, a send callback that serialises its callers; mb-close calls Close with the relay down or restarted in one run of five." + SIG_RULE,
     "assumptions": ["leak oracle relies on the task registry of the simulator: every goroutine of the code under test is a registered task named by its spawn site"],
     "components": GBN_COMPONENTS,
-    "expected_probes": ["c12.peer-notified"],
+    "expected_probes": ["c12.mb-closed-with-relay-down", "c12.peer-notified"],
     "level_text": EXPL_TEXT,
     "level_note": LEVEL_NOTE_GBN,
 }
@@ -128,7 +128,7 @@ PROPS["C07"] = {
     "pkgs": ["gbn", "mailbox"],
     "level": "fault_enumeration",
     "quick_budget": 70, "thorough_budget": 1800,
-    "rule": "Enumerated: gbn.Deserialize on every byte string of length 0..3 and (thorough: all 2^32; quick: first byte a packet type, 0x00 or 0xFF) 4-byte strings; all 256 SYN window values proposed by a scripted conforming client to a real server, plain and restarted handshake, followed by data in both directions. Sampled: garbage (every type byte x lengths 0..6, all ACK/NACK/SYN byte values, DATA with arbitrary header bytes, truncated/extended/bit-flipped captured packets, random longer strings) injected toward either live endpoint in every phase (before/inside the handshake, idle, k packets outstanding, mid-resend), followed by a conforming exchange. Mailbox part: MsgData.Deserialize on every byte string of length 0..3 and on 5-byte headers with boundary length fields; stripJSONWrapper on a grammar of envelopes; garbage / truncated / extended / mutated Noise handshake acts and encrypted records against real parties in every configuration; forged messages injected by the stub relay into live full-stack sessions. Oracle: no task panics (caught at the task root with stack); white-box window invariants after each injection (s = n+1 >= 2, base/top/recvSeq < s, size <= n)." + SIG_RULE + " For enumerated sub-batches a case is one first byte / one SYN value.",
+    "rule": "Enumerated: gbn.Deserialize on every byte string of length 0..3 and (thorough: all 2^32; quick: first byte a packet type, 0x00 or 0xFF) 4-byte strings; all 256 SYN window values proposed by a scripted conforming client to a real server, plain and restarted handshake, followed by data in both directions. Sampled: garbage (every type byte x lengths 0..6, all ACK/NACK/SYN byte values, DATA with arbitrary header bytes, truncated/extended/bit-flipped captured packets, random longer strings) injected toward either live endpoint in every phase (before/inside the handshake, idle, k packets outstanding, mid-resend), followed by a conforming exchange. Mailbox part: MsgData.Deserialize on every byte string of length 0..3 and on 5-byte headers with boundary length fields; stripJSONWrapper on a grammar of envelopes; garbage / truncated / extended / mutated Noise handshake acts and encrypted records against real parties in every configuration; forged messages injected by the stub relay into live full-stack sessions. Oracle: no task panics (caught at the task root with stack); white-box window invariants after each injection (s = n+1 >= 2, base/top/recvSeq < s, size <= n). gbn-window-forgery enumerates every forged ACK/NACK value against every window state of the first pass through the sequence numbers (retransmission buffer filled only for packets in flight) for s in 2..40 and larger samples." + SIG_RULE + " For enumerated sub-batches a case is one first byte / one SYN value.",
     "assumptions": ["GBN packets are unauthenticated: a forged but well-formed ACK/DATA may legitimately disturb the stream (counted by a probe); only crashes and bookkeeping outside the valid range are violations"],
     "components": dict(GBN_COMPONENTS, **{"mailbox package (framing, Noise, conns, Server/Client)": "real code, instrumented copy of the working tree", "hashmail relay": "stub that also forges messages"}),
     "expected_probes": ["c07.deserialize-cases", "c07.scripted-exchange-complete", "c07.server-refused-window", "c07.msgdata-cases", "c07.json-cases", "c05.transfer-complete-after-heal"],
@@ -149,7 +149,7 @@ PROPS["C03"] = {
     "pkgs": ["mailbox"],
     "level": "fault_enumeration",
     "quick_budget": 60, "thorough_budget": 1200,
-    "rule": "Enumerated: an XX handshake for each of the 112 positions at which the initiator's (or responder's) passphrase differs in exactly one bit; each KK key-mismatch shape x three auth payload sizes. Sampled: random equal/unequal passphrases (incl. 1-3 bit differences), correct and wrong static keys, all constructible (min,max) version ranges per side, auth payload sizes {0,1,498,4 KiB,1 MiB}, 1 in 40 runs at production scrypt cost, both start orders. Oracle on mismatch: the responder wrote zero bytes, both parties return errors (the initiator by its read deadline), no cipher states, no callbacks, nothing stored, no 16-byte window of the auth payload on the wire." + SIG_RULE,
+    "rule": "Enumerated: an XX handshake for each of the 112 positions at which the initiator's (or responder's) passphrase differs in exactly one bit; each KK key-mismatch shape x three auth payload sizes. Sampled: random equal/unequal passphrases (incl. 1-3 bit differences), correct and wrong static keys, all constructible (min,max) version ranges per side, auth payload sizes {0,1,498,4 KiB,1 MiB}, 1 in 40 runs at production scrypt cost, both start orders. Oracle on mismatch: the responder wrote zero bytes, both parties return errors (the initiator by its read deadline), no cipher states, no callbacks, nothing stored, no 16-byte window of the auth payload on the wire. kk-mismatch also covers a responder with a paired key on file that is capped below handshake version 2 facing a stranger who knows the old passphrase; concurrent-sessions runs 2-3 sessions with different passphrases plus strangers concurrently in one process." + SIG_RULE,
     "assumptions": ["'completes only if' is read as stated: matching handshakes that do not complete (incompatible version ranges, v0 payload too large) are counted, not flagged"],
     "components": NOISE_COMPONENTS,
     "expected_probes": ["c03.mismatch-rejected", "c03.match-completed", "c03.production-scrypt"],
@@ -161,10 +161,10 @@ PROPS["C04"] = {
     "pkgs": ["mailbox"],
     "level": "fault_enumeration",
     "quick_budget": 70, "thorough_budget": 1800,
-    "rule": "Enumerated: every constructible (clientMin,clientMax,serverMin,serverMax) in {0,1,2}^4 x {XX,KK} x auth payload size {0,1,497,498,499,500,65535,1 MiB,4 MiB} untampered; for every configuration every substitution of each act's clear-text version byte by 0..3 in all combinations across acts; every single-bit flip of every handshake byte for v2 XX and v2 KK (thorough: also v0 and v0-1 XX). Sampled: random multi-byte rewrites, truncations, extensions, duplications and replays of acts. Outcomes are classified {both fail, one completes, both complete}; only 'both complete' is constrained: complementary traffic keys, equal version, each side's remote static = the other's true key, initiator's auth data = responder's payload, remote key published on both sides or neither." + SIG_RULE,
+    "rule": "Enumerated: every constructible (clientMin,clientMax,serverMin,serverMax) in {0,1,2}^4 x {XX,KK} x auth payload size {0,1,497,498,499,500,65535,1 MiB,4 MiB} untampered; for every configuration every substitution of each act's clear-text version byte by 0..3 in all combinations across acts; every single-bit flip of every handshake byte for v2 XX and v2 KK (thorough: also v0 and v0-1 XX). Sampled: random multi-byte rewrites, truncations, extensions, duplications and replays of acts. Outcomes are classified {both fail, one completes, both complete}; only 'both complete' is constrained: complementary traffic keys, equal version, each side's remote static = the other's true key, initiator's auth data = responder's payload, remote key published on both sides or neither. The agreement oracle also compares rotation salts and record counters; callbacks-refuse enumerates an erroring onRemoteStatic / onAuthData callback on either side for every configuration." + SIG_RULE,
     "assumptions": ["white-box comparison of the two Machines' cipher keys and versions"],
     "components": NOISE_COMPONENTS,
-    "expected_probes": ["c04.both-complete", "c04.both-fail", "c04.flip-applied"],
+    "expected_probes": ["c04.callback-refused", "c04.both-complete", "c04.both-fail", "c04.flip-applied"],
     "level_text": "Fault enumeration: the finite MITM edit sets named in the rule are enumerated completely against real two-party handshakes under the simulator; further rewrites are seeded samples.",
     "level_note": LEVEL_NOTE_NOISE,
 }
@@ -173,7 +173,7 @@ PROPS["C08"] = {
     "pkgs": ["mailbox"],
     "level": "exploration",
     "quick_budget": 60, "thorough_budget": 1200,
-    "rule": "After a real XX or KK handshake, 0..5000 records per direction (key rotation every 500 records, so up to 10 rotations), the order of {A writes, B writes, B reads, A reads} drawn from the tape, record sizes 0, 1, 16..215 and 65535, equal plaintext throughout or distinct ones. Oracles: the (key, nonce) state before each record is new for that direction and advances; ciphertext records are pairwise distinct; every record decrypts to exactly what was written; no 16-byte window of the plaintexts or of the auth payload occurs in the recorded wire bytes (handshake included)." + SIG_RULE,
+    "rule": "After a real XX or KK handshake, 0..5000 records per direction (key rotation every 500 records, so up to 10 rotations), the order of {A writes, B writes, B reads, A reads} drawn from the tape, record sizes 0, 1, 16..215 and 65535, equal plaintext throughout or distinct ones. Oracles: the (key, nonce) state before each record is new for that direction and advances; ciphertext records are pairwise distinct; every record decrypts to exactly what was written; no 16-byte window of the plaintexts or of the auth payload occurs in the recorded wire bytes (handshake included). (key, nonce) pairs and ciphertexts are remembered across both directions of a session." + SIG_RULE,
     "assumptions": ["(key, nonce) freshness is observed white-box at record granularity (before/after WriteMessage); a reuse inside a record would still show as a state that does not advance or as a decryption failure"],
     "components": NOISE_COMPONENTS,
     "expected_probes": ["c08.many-rotations", "c08.records"],
@@ -185,7 +185,7 @@ PROPS["C02"] = {
     "pkgs": ["mailbox"],
     "level": "fault_enumeration",
     "quick_budget": 70, "thorough_budget": 1800,
-    "rule": "Enumerated: every single-bit flip of one full wire record (18-byte encrypted header, body, 16-byte MAC) for body sizes {0,1,17,65535} at record index {0,499,500} (around the first key rotation) in XX and KK sessions, each flip against a fresh copy of the reader's cipher state (quick: body bits of the 65535-byte record every 101st bit; thorough: all). Sampled: sessions exposed through Machine.ReadMessage/WriteMessage+Flush, NoiseGrpcConn or NoiseConn, 1..12 and 0..7 records per direction (sizes 0..2000, occasionally 65535), scripts of 1-4 edits from {drop, duplicate, swap, replay-earlier, reflect-from-other-direction, truncate, inject, bit flip, splice} at record boundaries and mid-record offsets applied to one or both directions; readers run as tasks until the first error and four more attempts. Oracle: returned plaintext is a byte prefix of what was written; no successful read after the first error; untouched streams are delivered completely." + SIG_RULE,
+    "rule": "Enumerated: every single-bit flip of one full wire record (18-byte encrypted header, body, 16-byte MAC) for body sizes {0,1,17,65535} at record index {0,499,500} (around the first key rotation) in XX and KK sessions, each flip against a fresh copy of the reader's cipher state (quick: body bits of the 65535-byte record every 101st bit; thorough: all). Sampled: sessions exposed through Machine.ReadMessage/WriteMessage+Flush, NoiseGrpcConn or NoiseConn, 1..12 and 0..7 records per direction (sizes 0..2000, occasionally 65535), scripts of 1-4 edits from {drop, duplicate, swap, replay-earlier, reflect-from-other-direction, truncate, inject, bit flip, splice} at record boundaries and mid-record offsets applied to one or both directions; readers run as tasks until the first error and four more attempts. Oracle: returned plaintext is a byte prefix of what was written; no successful read after the first error; untouched streams are delivered completely. Readers use either one large buffer per Read or small and varying ones (a record handed out over several Reads); slices returned by ReadMessage are kept and compared again at the end of the run." + SIG_RULE,
     "assumptions": ["the adversary works on the ciphertext produced by the authentic writer (it holds no keys)"],
     "components": NOISE_COMPONENTS,
     "expected_probes": ["c02.bit-flips", "c02.intact-prefix-delivered"],
@@ -241,7 +241,7 @@ PROPS["C11"] = {
     "pkgs": ["mailbox"],
     "level": "exploration",
     "quick_budget": 80, "thorough_budget": 2400,
-    "rule": "Each run drives one session through 2..5 rounds; a round waits until a connection has carried a complete transfer in both directions, then the tape picks the next event (close by client, by server, by both at the same instant, or a relay outage of 3..22 s that fails every stream operation) and its delay. The application behaves as gRPC does: Accept is re-entered immediately, Dial is sometimes called while a connection is open. Max handshake version 2 (pairing, rendezvous switch) in 4 of 5 runs, 1 otherwise. Oracles: at every Accept/Dial return the previous connection's Done() is closed; after each event a new connection completes a transfer within 4 virtual minutes; once both onRemoteStatic callbacks fired, later connections use equal, key-derived (not passphrase-derived) session ids with pairwise-crossed stream ids seen by the relay and the KK pattern; at the end a second client with a fresh key and only the passphrase must not complete a handshake." + SIG_RULE,
+    "rule": "Each run drives one session through 2..5 rounds; a round waits until a connection has carried a complete transfer in both directions, then the tape picks the next event (close by client, by server, by both at the same instant, or a relay outage of 3..22 s that fails every stream operation) and its delay. The application behaves as gRPC does: Accept is re-entered immediately, Dial is sometimes called while a connection is open. Max handshake version 2 (pairing, rendezvous switch) in 4 of 5 runs, 1 otherwise. Oracles: at every Accept/Dial return the previous connection's Done() is closed; after each event a new connection completes a transfer within 4 virtual minutes; once both onRemoteStatic callbacks fired, later connections use equal, key-derived (not passphrase-derived) session ids with pairwise-crossed stream ids seen by the relay and the KK pattern; at the end a second client with a fresh key and only the passphrase must not complete a handshake. Histories also contain relay-restart events (every mailbox and queued message lost, optionally right after one side closed) and, in a third of the runs, failing DelCipherBox calls." + SIG_RULE,
     "assumptions": ["'a first pairing in which static keys were exchanged' = both onRemoteStatic callbacks fired; a half-pairing (initiator stored the key, responder never saw act 3) is counted by a probe, see DESIGN.md", "the relay model frees a box's reader when its context is cancelled"],
     "components": STACK_COMPONENTS,
     "expected_probes": ["c11.handout-after-previous-closed", "c11.reconnected-on-key-derived-rendezvous", "c11.early-dial"],
